@@ -398,6 +398,32 @@ class Tracer:
         return ("unknown", k)
 
     # ------------------------------------------------------------------ guards
+    def operand_cases(self, op, depth=6):
+        """[(term, guards of the assigning block)]: when the operand is (a chain of copies / reborrows of) a local that is assigned
+        in several places — the value of an `if` / `match` expression — one case per assignment, each with the branch outcomes
+        that hold where it is made; otherwise the single flow-insensitive term with no extra guards"""
+        body = self.body
+        if op.place is None or not op.place.is_local():
+            return [(self.operand(op), [])]
+        l = op.place.local
+        while depth > 0:
+            depth -= 1
+            ds = self.defs.get(l, [])
+            if 1 <= l <= body.arg_count or len(ds) != 1 or ds[0][0] != "assign":
+                break
+            rv = body.blocks[ds[0][1]].stmts[ds[0][2]].rv
+            if rv.kind == "use" and rv.ops[0].place is not None and rv.ops[0].place.is_local():
+                l = rv.ops[0].place.local
+                continue
+            if rv.kind == "ref" and all(p_ == "deref" for p_ in rv.place.proj):
+                l = rv.place.local
+                continue
+            break
+        ds = self.defs.get(l, [])
+        if len(ds) >= 2 and all(d[0] == "assign" for d in ds) and not (1 <= l <= body.arg_count):
+            return [(self.rvalue(body.blocks[bb].stmts[ix].rv, frozenset(), (bb, ix)), self.guards_at(bb)) for _, bb, ix in ds]
+        return [(self.operand(op), [])]
+
     def guards_at(self, bb):
         """branch outcomes that hold on every path from entry to block bb, as normalised predicates:
            ('bool', term, True|False) / ('variant', term, name) / ('notvariant', term, (names)) /
